@@ -52,22 +52,33 @@ package safehtml
 
 //@ func appendURLToSet(url string, buffer *bytes.Buffer) ()
 //@   serves C12 C08
+//@   option uses C12.leading_comma_encoded C12.trailing_comma_encoded C12.both_commas_encoded
 //@   requires len(url) > 0
-//@   ensures layout: seqeq(seq(buffer), cat(old(seq(buffer)), ite(url[0] == ',', "%2c", ""), sub(url, lcut(url[0]), rcut(len(url), url[0], url[len(url)-1])), ite(rcut(len(url), url[0], url[len(url)-1]) < len(url), "%2c", "")))
+//@   ensures layout: seqeq(seq(buffer), cat(old(seq(buffer)), commaenc(url)))
+//@   ensures safe: inlang(SetURLIn, url) ==> inlang(SetURL, commaenc(url))
 //@   ensures grows: len(buffer) > old(len(buffer))
 
 //@ func isOptionalSrcMetadataWellFormed(metadata string) (r bool)
 //@   serves C12 C08
+//@   option uses C12.unit_letter_is_float_char
+//@   ensures float: r && len(metadata) > 0 ==> inlang(FloatChars, metadata)
 //@   ensures optional: len(metadata) == 0 ==> r
 //@   ensures alphabet: r && len(metadata) > 0 ==> inlang(FloatChars, sub(metadata, 0, len(metadata) - ite(isasciiletter(metadata[len(metadata)-1]), 1, 0)))
 
 //@ func URLSetSanitized(str string) (r URLSet)
 //@   serves C12 C08
+//@   option uses C12.first_url C12.first_url_descriptor C12.next_url C12.next_url_descriptor C12.placeholder_is_canonical
 //@   ensures nonempty: len(r.str) > 0
+//@   ensures canonical: inlang(SrcsetCanon, r.str)
 //@   defines seqeq(r.str, urlsetsan(str))
 //@   loop 1
 //@     invariant len(str) >= 0
 //@     invariant len(buffer) == slen(seq(buffer))
+//@     invariant blank: len(buffer) == 0 ==> seqeq(seq(buffer), "")
+//@     invariant canonical: len(buffer) == 0 || inlang(SrcsetCanon, seq(buffer))
+//@     hint wsfree: inlang(WSFree, url)
+//@     hint nonempty: len(url) > 0 ==> inlang(NonEmpty, url)
+//@     hint urlin: inlang(URLAccept, url) && len(url) > 0 ==> inlang(SetURLIn, url)
 //@     decreases len(str)
 
 //@ func TrustedResourceURLAppend(t TrustedResourceURL, s string) (r TrustedResourceURL, err error)
